@@ -524,14 +524,17 @@ type FuncContract struct {
 	Cuts      []CutSpec  // cut points (block contracts) in the function's own body
 	Iterates  []IterSpec // parameters holding a callback that the (trusted) callee invokes any number of times
 	IterInv   []Clause // closure contract: invariant over the captured variables, kept by every invocation
+	IterPost  []Clause // closure contract: per-argument fact, established by the invocation and stable afterwards
 }
 
 // IterSpec: `iterates f [with <expr>]`: the callee invokes its parameter f any number of
 // times; <expr> (over the callee's parameters and $x for f's own parameters) is what the
 // callee guarantees about the arguments it passes.
 type IterSpec struct {
-	Param string
-	With  SExpr
+	Param    string
+	With     SExpr
+	Covering SExpr // every argument tuple satisfying this was passed to the callback at least once ...
+	Unless   SExpr // ... unless some invocation returned results satisfying this (over $result0, $result1, ...)
 }
 
 type LetSpec struct {
@@ -589,7 +592,7 @@ var clauseKeywords = map[string]bool{
 	"requires": true, "ensures": true, "assigns": true, "loop": true, "inline": true,
 	"invariant": true, "guarded_by": true, "opaque": true, "trusted": true, "may_panic": true,
 	"wire": true, "noverify": true, "sort": true, "note": true, "let": true, "import": true,
-	"pure": true, "callassert": true, "havoc": true, "witness": true, "ghost": true, "guarded": true, "extern": true, "cut": true, "iterates": true, "iterinv": true, "bounded": true, "boundedonly": true, "dyntype": true,
+	"pure": true, "callassert": true, "havoc": true, "witness": true, "ghost": true, "guarded": true, "extern": true, "cut": true, "iterates": true, "iterinv": true, "iterpost": true, "bounded": true, "boundedonly": true, "dyntype": true,
 }
 
 // extractContractLines pulls the "//@" lines out of a Go source or .spec file
@@ -816,16 +819,46 @@ func (db *ContractDB) parseFile(pkgPath, file, src string) error {
 			if curF == nil {
 				return fail(fmt.Errorf("iterates outside func"))
 			}
-			is := IterSpec{Param: strings.TrimSpace(rest)}
-			if i := strings.Index(rest, " with "); i >= 0 {
-				is.Param = strings.TrimSpace(rest[:i])
-				e, err := parseSpecExpr(strings.TrimSpace(rest[i+6:]))
-				if err != nil {
-					return fail(err)
+			// iterates <param> [with <expr>] [covering <expr>] [unless <expr>]
+			is := IterSpec{}
+			parts := map[string]string{}
+			cur, body := "param", rest
+			for {
+				best, bk := -1, ""
+				for _, kw := range []string{" with ", " covering ", " unless "} {
+					if i := strings.Index(body, kw); i >= 0 && (best < 0 || i < best) {
+						best, bk = i, kw
+					}
 				}
-				is.With = e
+				if best < 0 {
+					parts[cur] = strings.TrimSpace(body)
+					break
+				}
+				parts[cur] = strings.TrimSpace(body[:best])
+				cur, body = strings.TrimSpace(bk), body[best+len(bk):]
+			}
+			is.Param = parts["param"]
+			for k, dst := range map[string]*SExpr{"with": &is.With, "covering": &is.Covering, "unless": &is.Unless} {
+				if src, ok := parts[k]; ok {
+					e, err := parseSpecExpr(src)
+					if err != nil {
+						return fail(err)
+					}
+					*dst = e
+				}
 			}
 			curF.Iterates = append(curF.Iterates, is)
+		case "iterpost":
+			// callback contract: a fact about the arguments of one invocation that holds after
+			// it and is kept by every later invocation (used through the callee's `covering`)
+			if curF == nil {
+				return fail(fmt.Errorf("iterpost outside func"))
+			}
+			c, err := parseClause(rest, fmt.Sprintf("%d", len(curF.IterPost)+1))
+			if err != nil {
+				return fail(err)
+			}
+			curF.IterPost = append(curF.IterPost, c)
 		case "iterinv":
 			if curF == nil {
 				return fail(fmt.Errorf("iterinv outside func"))
